@@ -5,7 +5,7 @@ from gen_common import *
 import c01
 
 ID = "C17"
-CRATES = ("typegen",)
+CRATES = ("typegen", "description")
 FUNCTIONS = c01.FUNCTIONS + ["utils::ensure_unique_type_paths"]
 MODELS = c01.MODELS
 ASSUMPTIONS = ["well-formed, coincidence-free corpus registries; array lengths and variant indices symbolic and shared between the two executions of a path",
@@ -127,8 +127,37 @@ def restrict_family(name, reg0, roots, dedup):
         return res
     return Family(name, mk, run, target_prefixes=min(16, len(roots)))
 
+def describe_restrict_family(name, reg0, roots):
+    """descriptions and examples of retained ids are unchanged by restricting the registry to a reachability closure"""
+    from models_ex import canon
+    import c13
+    def setup(eng): eng.rng_mode = "exact"; eng.max_depth = 2000
+    def mk(eng): return eng.choose([(i, True) for i in roots])
+    def run(eng, root):
+        res = {"violations": [], "outcome": "Ok"}
+        sub, newid = restrict(reg0, [root])
+        fv, sv = to_engine(reg0), to_engine(sub)
+        st = ST.apply(eng)
+        for old, new in sorted(newid.items())[:10]:
+            a = c13.describe_id(eng, fv, old, False); b = c13.describe_id(eng, sv, new, False)
+            ta = c13.pieces_text(a[1], None) if a[0] == "Ok" else "ERR"; tb = c13.pieces_text(b[1], None) if b[0] == "Ok" else "ERR"
+            if ta != tb: res["violations"].append({"what": "description of id %d changes under restriction to the closure of %d: %r vs %r" % (old, root, ta[:150], tb[:150]),
+                                                   "case": {"op": "describe", "reg": regdsl.encode(reg0).hex(), "id": str(old), "format": "0"}, "case2": {"op": "describe", "reg": regdsl.encode(sub).hex(), "id": str(new), "format": "0"}, "kind": "restrict-describe"})
+            ra = eng.call("scale_value::example_from_seed", [], [Sc("u32", old), Slot([fv], 0), Sc("u64", 42)]); rb = eng.call("scale_value::example_from_seed", [], [Sc("u32", new), Slot([sv], 0), Sc("u64", 42)])
+            def cv(r):
+                if r.idx == 1: return "ERR"
+                out = []; canon(r.f[0], out); return "".join(out)
+            if cv(ra) != cv(rb): res["violations"].append({"what": "example value of id %d changes under restriction to the closure of %d: %s vs %s" % (old, root, cv(ra)[:120], cv(rb)[:120]),
+                                                           "case": {"op": "scale_example", "reg": regdsl.encode(reg0).hex(), "id": str(old), "seed": "42", "nseeds": "1"}, "case2": {"op": "scale_example", "reg": regdsl.encode(sub).hex(), "id": str(new), "seed": "42", "nseeds": "1"}, "kind": "restrict-example"})
+        return res
+    return Family(name, mk, run, target_prefixes=16, setup=setup)
+
 def families(eng, tier, seed):
     C = corpus(); fams = []; rnd = random.Random(seed + 17)
+    for n in ("containers", "enum", "generics", "rec", "modules", "compact", "calls", "reach", "collections", "bits"):
+        r = C[n]; roots = user_ids(r)
+        if tier == "quick": roots = roots[:8]
+        fams.append(describe_restrict_family("restrict-describe-%s" % n, r, roots))
     for n, r in C.items():
         if n in SKIP: continue
         if tier == "quick" and len(r) > 24: continue
@@ -152,6 +181,8 @@ def families(eng, tier, seed):
 def confirm(v, real):
     if "panic" in real: return True
     r2 = run_replay([v["case2"]])[0]
+    if v["kind"] in ("restrict-describe", "restrict-example"):
+        return (real.get("ok", real.get("err")) != r2.get("ok", r2.get("err"))) if v["kind"] == "restrict-describe" else (real.get("value") != r2.get("value"))
     o1 = real.get("result") if real.get("result") == "Ok" else "Err:%s" % real.get("err_variant"); o2 = r2.get("result") if r2.get("result") == "Ok" else "Err:%s" % r2.get("err_variant")
     k = v["kind"]
     if k in ("perm-outcome", "restrict-outcome"): return o1 != o2
@@ -162,6 +193,8 @@ def confirm(v, real):
         for i, p in enumerate(real["paths"].split(",")): g1.setdefault(p, set()).add(i)
         for kk, p in enumerate(r2["paths"].split(",")): g2.setdefault(p, set()).add(perm[kk])
         return sorted(map(sorted, g1.values())) != sorted(map(sorted, g2.values()))
+    if k == "restrict-describe": return real.get("ok", real.get("err")) != r2.get("ok", r2.get("err"))
+    if k == "restrict-example": return real.get("value") != r2.get("value")
     if k == "restrict-items":
         full = split_items(tokenize(real["tokens"])); part = split_items(tokenize(r2["tokens"]))
         return any(p not in full or full[p] != s for p, s in part.items())
